@@ -587,6 +587,9 @@ class NotchFilterFactory(Transform):
         self.zi = np.zeros(max(len(self.a), len(self.b)) - 1)
 
     def transform(self, samples):
+        if len(samples) == 0:
+            # lfilter does not define the final state for an empty input.
+            return samples
         samples, self.zi = signal.lfilter(self.b, self.a, samples, zi=self.zi)
         return samples
 
@@ -695,6 +698,9 @@ class BandlimitedNoiseFactory(Carrier):
 
     def next(self, samples):
         waveform = self.state.uniform(low=self.low, high=self.high, size=samples)
+        if samples == 0:
+            # lfilter does not define the final state for an empty input.
+            return waveform
         if self.equalize:
             waveform, self.iir_zi = signal.lfilter(self.iir, [1], waveform, zi=self.iir_zi)
         waveform, self.bp_zi = signal.lfilter(self.b, self.a, waveform, zi=self.bp_zi)
